@@ -190,9 +190,11 @@ CLAIMED = {
              "delivered exactly once with identical header and data, ACK (C17_valid_block_received, from the unbounded block round trip); one changed byte anywhere behind the "
              "length byte: EOT, NAK, nothing delivered (C17_corrupted_block_refused, from C16's corruption theorem); sender and receiver together, a message of any number of "
              "blocks: ENQ/EOT/block/ACK per block, all delivered once in order, the call succeeds (C17_dialog_delivers); the sending side succeeds exactly when every block is "
-             "acknowledged (C17_sender, C17_sender_nak_fails).",
-        note=NOTE_COMMON + " Partial: contention (both sides sending ENQ), a corrupted length byte (the receiver then waits for a different number of bytes), the T1-T4 timers the library "
-             "does not implement and the serial driver are outside; wait_for is modelled as accumulation of bytes.",
+             "acknowledged (C17_sender, C17_sender_nak_fails); a changed LENGTH byte is not answered with NAK (C17_length_byte_refuted, known finding C17-length-byte: the receiver waits, "
+             "the library has no timers). The harness also plays a failed attempt followed by the sender's next attempt with the same system bytes (D33).",
+        note=NOTE_COMMON + " Partial: contention (both sides sending ENQ), the T1-T4 timers the library does not implement and the serial driver are outside; wait_for is modelled as "
+             "accumulation of bytes; what the receiver makes of the bytes left behind a block whose length byte was lowered depends on when it is triggered again (compared with the "
+             "specification only).",
         technique="Rocq proof (byte-level machine, corollaries of the C16 codec theorems, induction over blocks) + translator-regenerated constants + in-Coq differential correspondence on a real SecsIProtocol",
         design="5/C17",
     ),
